@@ -57,6 +57,19 @@ def random_scope(rng, n):
                  ([-2 ** 70, 0], -2 ** 70 - 1), ([2 ** 53, 2 ** 53 + 2], 2 ** 53 + 1), ([float(2 ** 53)], 2 ** 53 + 1), ([0.1, 0.5], _D("0.1")), ([0.1, 0.5], _D("0.5")),
                  ([0.1, 0.3], _F(1, 10)), ([_F(1, 3), _F(2, 3)], 1 / 3), ([0.5, 2.5], _F(5, 2)), ([1, 2, 3], 2.0000000000000004), ([1.0, 2.0], 2 ** 70)]:
         yield l, x
+    # INT (and bool) probes on lists that hold fractions between the probe and its successor, and ties next to gaps in lists of consecutive ints:
+    # every sorted list of length <= 4 over {1, 1.25, 1.5, 2, 2.5, 2.75} x probes 0..3 / True / False; every sorted int list of length <= 5 over {0, 1, 2, 3}
+    # whose span is its length - 1 although it has a tie
+    for k_ in range(1, 5):
+        for l in itertools.combinations_with_replacement([1, 1.25, 1.5, 2, 2.5, 2.75], k_):
+            if any(isinstance(a, float) for a in l):
+                for x in (0, 1, 2, 3, True, False):
+                    yield list(l), x
+    for k_ in range(3, 6):
+        for l in itertools.combinations_with_replacement([0, 1, 2, 3, 4], k_):
+            if l[-1] - l[0] == k_ - 1 and len(set(l)) < k_:
+                for x in range(-1, 6):
+                    yield list(l), x
     for c in range(n):
         k = rng.randrange(0, 40)
         if c % 25 == 7:
